@@ -10,7 +10,7 @@ From Srtla Require Import Base Constants Conn Shape.
 From Srtla Require Export Classic ClassicRef.
 
 (** ---- observations ----
-    per link: fast = [connected; registering; window; last_received (-1 = None);
+    per link: fast = [connected; registering; window; has last_received; last_received (0 if none);
                       established; grace deadline; batch size]
               slow = (sorted packet-log keys, queued seqs oldest first (-1 = None), quality multiplier) *)
 Definition slow := (list Z * list Z * float)%type.
@@ -31,7 +31,9 @@ Definition zo (o : option Z) : Z := match o with Some v => v | None => -1 end.
 Definition zon (o : option nat) : Z := match o with Some v => Z.of_nat v | None => -1 end.
 
 Definition obs_x (x : xlink) : lobs :=
-  ([zb (connected (core x)); zb (registering x); window (core x); zo (last_recv (core x));
+  ([zb (connected (core x)); zb (registering x); window (core x);
+    zb (match last_recv (core x) with Some _ => true | None => false end);
+    match last_recv (core x) with Some v => v | None => 0 end;
     established x; grace x; bsize x],
    (sort_z (map fst (log (core x))), map (fun p => zo (fst p)) (queue x), qmult x)).
 Definition obs_shell (s : shell) : list lobs := map obs_x (xs s).
@@ -70,21 +72,22 @@ Definition fld (n : nat) (l : lobs) : Z := nth n (fst l) 0.
 Definition o_conn (l : lobs) : bool := fld 0 l =? 1.
 Definition o_reg (l : lobs) : bool := fld 1 l =? 1.
 Definition o_win (l : lobs) : Z := fld 2 l.
-Definition o_lr (l : lobs) : Z := fld 3 l.
+Definition o_has_lr (l : lobs) : bool := fld 3 l =? 1.
+Definition o_lr (l : lobs) : Z := fld 4 l.
 Definition o_keys (l : lobs) : list Z := fst (fst (snd l)).
 Definition o_queue (l : lobs) : list Z := snd (fst (snd l)).
 
 (** ---- the reference's view of an observed state ---- *)
 (** usable = registered (REG3 seen), connected, and not silent for the liveness timeout *)
 Definition o_usable (now tmo : Z) (l : lobs) : bool :=
-  o_conn l && negb (o_reg l) && ((o_lr l =? -1) || negb (tmo <=? Z.max 0 (now - o_lr l))).
+  o_conn l && negb (o_reg l) && (negb (o_has_lr l) || negb (tmo <=? Z.max 0 (now - o_lr l))).
 Definition rview (now tmo : Z) (l : lobs) : rlink :=
   {| r_usable := o_usable now tmo l; r_window := o_win l;
      r_inflight := blen (o_keys l); r_queued := blen (o_queue l) |}.
 Fixpoint aview (arrival : nat) (i : nat) (ls : list lobs) : list alink :=
   match ls with
   | [] => []
-  | l :: t => (o_conn l, negb (o_lr l =? -1) || Nat.eqb i arrival, o_win l, o_keys l) :: aview arrival (S i) t
+  | l :: t => (o_conn l, o_has_lr l || Nat.eqb i arrival, o_win l, o_keys l) :: aview arrival (S i) t
   end.
 
 Definition wins (ls : list lobs) : list Z := map o_win ls.
